@@ -70,7 +70,11 @@ PROPS["C13"] = {
     "theorem_status": {"C13_map_methods_hold_the_lock": "proved (translator fact: lock discipline of subscriptionMap read from the source)",
                        "C13_no_panic_partial": "proved (hypothesis: no end-of-subscription while its message is in flight)",
                        "C13_no_panic_refuted": "refuted full statement (witness schedule) - open finding",
-                       "C13_api_returns": "proved", "C13_reader_never_stuck": "proved", "C13_lockset": "proved"},
+                       "C13_api_returns": "proved", "C13_reader_never_stuck": "proved", "C13_lockset": "proved",
+                       "C13_every_call_returns": "proved (global liveness: after ANY schedule with at most one Close, every unfinished API call can be brought to return by thread steps and application receives alone, against an adaptive adversary choosing which connection operations fail)",
+                       "C13_two_closes_deadlock_in_the_model_refuted": "refuted without the one-Close hypothesis (two overlapping Close calls share the model's list of collected ids; outside the property's quantifier, the real code snapshots per call)",
+                       "C13_reader_terminates": "proved (from every reachable closing or lost state the reader reaches its end under every fault assignment; inbound frames are consumed first, a helpful application receives)",
+                       "C13_liveness_witness": "proved (non-vacuity)"},
 }
 PROPS["C14"] = {
     "coq": ["Properties/C14.v", "Corr/Wscorr.v"],
@@ -86,12 +90,15 @@ PROPS["C15"] = {
     "coq": ["Properties/C15.v", "Corr/Wscorr.v"],
     "trusted": WS_TRUSTED,
     "assumptions": [],
-    "level_text": "Theorems: for every sequence of handshake operations with any fault/garbage/ack pattern Start leaves no reader and a closed connection on failure and writes init before reading the ack; a failed Subscribe write unregisters and writes nothing; subscribe frames carry pairwise distinct ids of registered subscriptions in every reachable state; Close collects only active ids, continues after a failed close-frame write and its final step always closes connection and error channel; every Close thread can always progress. Tied to the code by per-step replay incl. an every-k connection-fault sweep, and the Go oracle over the frames really written (init first, fresh ids, <=1 complete per id, nothing after close).",
-    "level_note": "partial: the complete frame grammar as a regular-language theorem over [frames] is checked by the oracle/correspondence, the proved part is listed in theorem_status.",
+    "level_text": "Theorems: for every sequence of handshake operations with any fault/garbage/ack pattern Start leaves no reader and a closed connection on failure and writes init before reading the ack; a failed Subscribe write unregisters and writes nothing; subscribe frames carry pairwise distinct ids of registered subscriptions in every reachable state; for every sequential API call sequence, interleaving and fault choice the written frames form a valid conversation (fresh ids, at most one complete per id and only after its subscribe, nothing after close); Close collects only active ids, continues after a failed close-frame write and its final step always closes connection and error channel; every Close thread can always progress. Tied to the code by per-step replay incl. an every-k connection-fault sweep, and the Go oracle over the frames really written (init first, fresh ids, <=1 complete per id, nothing after close).",
+    "level_note": "The grammar theorem quantifies over sequential API call sequences, as the property does; overlapping calls are C13's subject. connection_init / acknowledgement ordering is the separate Start model (C15_start_fault_cleanup). The payloads of init and subscribe frames are checked by the Go oracle on the frames really written, not modelled.",
     "theorem_status": {"C15_start_fault_cleanup": "proved", "C15_subscribe_fault_unregisters": "proved",
                        "C15_close_collects_only_active": "proved", "C15_close_goes_on": "proved",
                        "C15_close_always_releases": "proved", "C15_close_reaches_release": "proved",
-                       "C15_subscribe_ids_are_fresh": "proved (invariant over every reachable state: subscribe frames carry pairwise distinct ids of registered subscriptions)"},
+                       "C15_subscribe_ids_are_fresh": "proved (invariant over every reachable state: subscribe frames carry pairwise distinct ids of registered subscriptions)",
+                       "C15_conversation_grammar": "proved (for every sequential API call sequence x every interleaving with reader/server/receives x every fault choice: fresh subscribe ids, at most one complete per id and only after its subscribe frame, nothing after the close frame)",
+                       "C15_conversation_accepted": "proved (the same as the executable left-to-right acceptance check conv_ok)",
+                       "C15_conversation_witness": "proved (non-vacuity)"},
 }
 
 PROPS["C20"] = {
@@ -201,12 +208,15 @@ PROPS["C09"] = {
 PROPS["C07"] = {
     "coq": ["Properties/C07.v", "Corr/Convcorr.v"],
     "trusted": CONV_TRUSTED + ["arbitrary BYTES first meet yaml.v2, go/parser and gqlparser's lexer/parser/validator (third party): the theorems start at the validated AST; the byte-level stream is exploration (recover + watchdog), reported as such"],
-    "assumptions": ["the converter theorem assumes that names resolve (Gen/Wf.v: every named type, fragment and root type exists): gqlparser's validator guarantees it and Corr/Convcorr.v evaluates the same boolean on every explored program; the flatten index sites and OutOfFuel are not excluded by a theorem but exercised through the correspondence (the model must predict Ok/Err/Panic of every explored program)"],
-    "level_text": "Theorems: usedFragments terminates for every fragment table (no acyclicity assumed); the whole comment-directive path (scan, add, for:, conflicts) returns a value or an error for every line sequence; the formerly crashing inline fragment without type condition is converted; for the WHOLE converter model (convert.go with the directive validation it calls, every configuration and source text): on programs whose names resolve, no unchecked map or pointer dereference is reachable -- only the flatten index sites remain. The converter model marks every unchecked map dereference of convert.go as an explicit Panic and every non-structural recursion with fuel, and must predict the real outcome (accepted / error class / panic) of every explored program in-kernel. Exploration: valid-but-unusual programs, genqlient.yaml variants through ReadAndValidateConfig, and byte-level mutations of all four input kinds, each under recover and a watchdog.",
+    "assumptions": ["the converter theorem assumes that names resolve (Gen/Wf.v: every named type, fragment and root type exists) and that every node's line number lies inside its source as parsePrecedingComment splits it (pos_okb): gqlparser's validator guarantees the first, the agreement of the lexer's line count with the split of the source (after fix fcb7a4e: \\n, \\r\\n and bare \\r) the second, and Corr/Convcorr.v evaluates the same booleans on every explored program (which include all three line terminators); the flatten index sites and OutOfFuel are not excluded by a theorem but exercised through the correspondence (the model must predict Ok/Err/Panic of every explored program)"],
+    "level_text": "Theorems: usedFragments terminates for every fragment table (no acyclicity assumed); the whole comment-directive path (scan, add, for:, conflicts) returns a value or an error for every line sequence; the formerly crashing inline fragment without type condition is converted; for the WHOLE converter model (convert.go with the directive validation it calls, every configuration and source text): on programs whose names resolve and whose positions lie inside their sources, no unchecked map or pointer dereference and no out-of-range index is reachable -- only the flatten index sites remain (full theorem: none at all on programs of the validated shape); without the positions hypothesis the sourceLines index of parsePrecedingComment panics (refutation theorem; the real generator did so on bare-CR files until fix fcb7a4e). The converter model marks every unchecked map dereference of convert.go as an explicit Panic and every non-structural recursion with fuel, and must predict the real outcome (accepted / error class / panic) of every explored program in-kernel. Exploration: valid-but-unusual programs, genqlient.yaml variants through ReadAndValidateConfig, and byte-level mutations of all four input kinds, each under recover and a watchdog.",
     "level_note": "partial: proof for the directive path and fragment closure; converter no-panic carried by the correspondence on the model's explicit Panic sites; raw bytes are exploration only.",
     "theorem_status": {"C07_used_fragments_terminates": "proved", "C07_directive_add_total": "proved", "C07_directive_scan_total": "proved",
                        "C07_bare_inline_fragment_converts": "proved (fixed finding)",
-                       "C07_converter_panics_only_at_flatten_index_sites_partial": "proved (partial: with names resolved no unchecked dereference of the converter is reachable; the flatten index sites remain)",
+                       "C07_converter_panics_only_at_flatten_index_sites_partial": "proved (partial: with names resolved and every node's line inside its source no unchecked dereference or index of the converter is reachable; the flatten index sites remain)",
+                       "C07_line_index_site_refuted_without_positions": "refuted without the positions hypothesis (a source split into fewer lines than the lexer counted: the sourceLines index panics; this was finding F-C07-4, bare-CR files)",
+                       "C07_line_index_panics_iff_out_of_range": "proved",
+                       "C07_strong_hypotheses_imply_partial_hypotheses": "proved",
                        "C07_converter_hypotheses_satisfiable": "proved (non-vacuity)",
                        "C07_converter_never_panics": "proved (full: no Panic site of the converter model is reachable on programs of the validated shape, for every configuration, source text and fuel)",
                        "C07_converter_full_hypotheses_satisfiable": "proved (non-vacuity)"},
@@ -232,16 +242,22 @@ RT_TRUSTED = CONV_TRUSTED + [
 PROPS["C19"] = {
     "coq": ["Properties/C19.v", "Corr/Rtcorr.v"],
     "trusted": RT_TRUSTED,
-    "assumptions": ["'never loops' is stated on the fuel-indexed model as 'never Panic'; the real decoder's termination on every explored input is observed under a watchdog in a separate process"],
-    "level_text": "Theorems over EVERY typemap, Go type, JSON value and depth: the generated decoders (struct UnmarshalJSON first/second pass, per-depth fill loops, __unmarshal<Interface> helpers) and the encoding/json fragment under them return a value or an error and never reach a panic site; without the method-hiding wrapper every non-null object would recurse forever (so the wrapper flag read from the template is load-bearing); a successfully decoded abstract value holds an implementation whose GraphQL type IS the response's __typename, decoded from the same object; missing, null, empty, non-string or unknown __typename and non-object values are errors. Tied to the templates and to encoding/json by decoding conformant and mutated responses with the compiled generated code of random programs and comparing every outcome (value dump / error / panic) with the model in-kernel.",
-    "level_note": "partial: raw non-JSON bytes and the subscription forwarder are explored (recover + watchdog), not modelled; termination is observed, the theorem is panic-freedom for every fuel.",
+    "assumptions": ["termination is a theorem about the model (for every type map whose embedded-struct / implementation edges form no cycle -- a boolean that Corr/Rtcorr.v evaluates on the type map of every explored program --, every Go type, JSON value and starting value); the real decoder's termination on every explored input is observed under a watchdog in a separate process"],
+    "level_text": "Theorems over EVERY typemap, Go type, JSON value and depth: the generated decoders (struct UnmarshalJSON first/second pass, per-depth fill loops, __unmarshal<Interface> helpers) and the encoding/json fragment under them return a value or an error and never reach a panic site; without the method-hiding wrapper every non-null object would recurse forever (so the wrapper flag read from the template is load-bearing); a successfully decoded abstract value holds an implementation whose GraphQL type IS the response's __typename, decoded from the same object; missing, null, empty, non-string or unknown __typename and non-object values are errors; and they never loop: in every type map without a cycle of embedded structs / implementations (recursive GraphQL types included) decoding is defined for every fuel above a bound that depends on the JSON value only through its nesting depth, with one result per input (a struct that embeds itself, which Go rejects, is proved to diverge: the hypothesis is needed). Tied to the templates and to encoding/json by decoding conformant and mutated responses with the compiled generated code of random programs and comparing every outcome (value dump / error / panic) with the model in-kernel.",
+    "level_note": "raw non-JSON bytes and the subscription forwarder are explored (recover + watchdog), not modelled.",
     "theorem_status": {"C19_no_panic": "proved", "C19_wrapper_is_needed": "proved", "C19_dispatch_is_by_typename": "proved",
                        "C19_missing_typename_is_an_error": "proved", "C19_empty_or_null_typename_is_an_error": "proved",
                        "C19_unknown_typename_is_an_error": "proved", "C19_scalar_or_list_for_an_abstract_value_is_an_error": "proved",
                        "C19_witness": "proved (non-vacuity)", "C19_templates_as_modelled": "proved (translator facts)",
                        "C19_result_independent_of_fuel": "proved (fuel monotonicity of all five decoders)", "C19_any_two_sufficient_fuels_agree": "proved",
                        "C19_never_mistyped": "proved (a decoded value has the Go kind of its type; interfaces hold one of their implementations)",
-                       "C19_leaf_types_never_run_out_of_fuel": "proved (termination for the wrapper algebra of leaf types: fuel bounds the type depth, not the input)"},
+                       "C19_leaf_types_never_run_out_of_fuel": "proved (termination for the wrapper algebra of leaf types: fuel bounds the type depth, not the input)",
+                       "C19_decode_terminates": "proved (never loops, ALL types incl. recursive ones: in a type map without a cycle of embedded structs / implementations decoding any JSON value into any type is defined for every large enough fuel)",
+                       "C19_fuel_bound_depends_on_depth_only": "proved",
+                       "C19_decode_total": "proved (one result per input, the same for every sufficient fuel)",
+                       "C19_acyclicity_check_is_sound": "proved (the boolean the correspondence evaluates on every generated type map implies the theorem's hypothesis)",
+                       "C19_recursive_types_are_covered": "proved (non-vacuity)",
+                       "C19_self_embedding_struct_diverges": "proved (the hypothesis is needed: out of every fuel)"},
 }
 PROPS["C02"] = {
     "coq": ["Properties/C02.v", "Corr/Rtcorr.v"],
